@@ -458,7 +458,11 @@ def gen_case(ch: Chooser, excl=()):
     b_extra = {}
     if ch.bool(1, 2):
         b_extra["sort"] = ch.choice(["alpha", "permission", "permission-alpha", "type", "type", "type-alpha", "type-alpha"])
-    return finish_case(amods, bfiles, refs, neg, inside, kinds, history, naming, a_display, a_extra, b_graph, b_extra)
+    case = finish_case(amods, bfiles, refs, neg, inside, kinds, history, naming, a_display, a_extra, b_graph, b_extra)
+    if ch.bool(1, 3):
+        case["b_cwd"] = ch.choice(["parent", "elsewhere"])      # `ford B/project.md` started from another directory
+        case["classes"].append("B:cwd=" + case["b_cwd"])
+    return case
 
 
 def finish_case(amods, bfiles, refs, neg, inside, kinds, history, naming, a_display, a_extra, b_graph, b_extra=None):
@@ -676,7 +680,8 @@ def check(case) -> Result:
                     a_url = "../A/doc"
                 rewrite_project(bdir / "project.md", **{"{A_URL}": a_url})
                 try:
-                    data_b, out_b = site.build_site(bdir)
+                    # (the external path is relative to the project file, wherever FORD is started from)
+                    data_b, out_b = site.build_site(bdir, cwd={"parent": root, "elsewhere": root / "A" / "src"}.get(case.get("b_cwd")))
                 except SystemExit as e:
                     res.fail("run-aborted:" + ("damaged" if case["damaged"] else "intact"), f"B's run ended with SystemExit({e}) [history {history}, external {a_url}]")
                     return res
